@@ -243,7 +243,7 @@ func singleOpMain(file string) int {
 		return 2
 	}
 	store := sim.NewStore(f.World.Docs, f.Op.Faults)
-	res := ExecOp(f.Op, &Env{World: f.World, Store: store, OrderKey: f.OrderKey, Budget: StepBudgetDefault, Fresh: true})
+	res := ExecOp(f.Op, &Env{World: f.World, Store: store, OrderKey: f.OrderKey, Budget: StepBudgetMeta, Fresh: true})
 	out, _ := json.Marshal(digestOp(res))
 	fmt.Printf("\nSINGLE-OP-DIGEST %s\n", out)
 	return 0
@@ -333,7 +333,7 @@ func (c16) Run(sc *Scenario) *Verdict {
 		v.probe("entry:" + op.Entry)
 		kinds = append(kinds, op.Entry)
 		store := sim.NewStore(w.Docs, op.Faults)
-		res := ExecOp(op, &Env{World: w, Store: store, OrderKey: key, Budget: StepBudgetDefault})
+		res := ExecOp(op, &Env{World: w, Store: store, OrderKey: key, Budget: StepBudgetMeta})
 		v.Steps += res.Out.Steps
 		v.addFaults(res.Log)
 		if strings.HasPrefix(res.Out.Panic, "harness:") && !strings.Contains(res.Out.Panic, "cannot encode") {
